@@ -32,8 +32,8 @@ P = {
          'every instance: the contours use every selected sub-segment EXACTLY ONCE - each round of the walk marks two fresh positions, '
          'consecutive contour points are the ends of exactly that pair, all positions are marked at the end '
          '(C02_contours_use_every_subsegment_once; hypotheses discharged for complete sweeps of finite operands at the exact instance: '
-         'C02_exact_contours_once); that two different selected sub-segments do not coincide is the twin rule plus, per run, exact '
-         'rational Python.', '§7 C02', 'Coq: verified scene checker for the nesting laws; correspondence; per-run certification'),
+         'C02_exact_contours_once); that two different result edges do not overlap is the twin rule plus, per run on the implementation\'s '
+         'result, the Coq-verified certificate C02_no_shared_boundary_certificate_sound (doubled by rational Python).', '§7 C02', 'Coq: verified scene checker for the nesting laws; correspondence; per-run certification'),
  'C03': ('proof', 'Partial proof + correspondence of outcomes in both build profiles and both float types + large inputs. Proved: the bubble sort '
          'of order_events returns a sorted permutation whenever the event order is asymmetric on the events sorted (and provably diverges on '
          'an order with a pair that is less both ways), the std BinaryHeap algorithms never lose or duplicate an element whatever the '
